@@ -44,9 +44,15 @@ def make_world(ctx, rng, n):
             body += b'last%d=1' % i        # no final newline
         I.write(os.path.join(root, name), body)
         targets[name] = ('lua', lines_of(body))
-    for i, ext in enumerate(['.p8', '.p8.png']):
+    for i, ext in enumerate(['.p8', '.p8.png', '.p8', '.p8.png']):
         sub = rng.choice(['', 'carts/'])
         name = '%sc%d%s' % (sub, i, ext)
+        if i >= 2:
+            # targets that share directory and stem with another target and differ only in the extension (lib.lua / lib.p8 / lib.p8.png)
+            stem = rng.choice([k for k in targets if k.endswith('.lua')])[:-4]
+            name = stem + ext
+            if name in targets or rng.random() < 0.4:
+                continue
         ntabs = rng.choice([1, 2, 3, 1, 2, 3, 11, 13, 22])     # also carts with two-digit tab numbers
         # (a tab separator is a line that STARTS with -->8; the same text later in a line is ordinary code/comment)
         decoy = rng.choice([b'', b'', b'\nx=1 -->8', b'\nprint("-->8")', b'\n -->8 indented', b'\n--->8', b'\ny=2 -- -->8 not a tab'])
